@@ -85,9 +85,13 @@ func NewTargetsManager(storeDir string, promRegistry prometheus.Registerer, log 
 }
 
 // Load load local targets information from storeDir
-func (t *TargetsManager) Load() error {
+func (t *TargetsManager) Load() (err error) {
 	_ = os.MkdirAll(t.storeDir, 0755)
 	defer func() {
+		if err != nil {
+			// never overwrite a store that could not be loaded
+			return
+		}
 		_ = t.UpdateTargets(&shard.UpdateTargetsRequest{Targets: t.targets.Targets})
 	}()
 
@@ -181,10 +185,12 @@ func (t *TargetsManager) doCallbacks() error {
 
 func (t *TargetsManager) saveTargets() error {
 	data, _ := json.Marshal(&t.targets)
-	if err := ioutil.WriteFile(t.storePath(), data, 0755); err != nil {
+	// write to a temporary file and rename it, so that an interrupted save never leaves a partial store file
+	tmp := t.storePath() + ".tmp"
+	if err := ioutil.WriteFile(tmp, data, 0755); err != nil {
 		return err
 	}
-	return nil
+	return os.Rename(tmp, t.storePath())
 }
 
 func (t *TargetsManager) storePath() string {
